@@ -58,6 +58,9 @@ def make_case(rng, i):
         steps.append({"op": "other", "action": "define_same_name", "variant": v, "drop": drop,
                       "events": [rng.choice(spec["events"]) for _ in range(2)]})
         kinds.add(("same-name-class-defined-first", v, "dropped-and-collected" if drop else "kept"))
+    elif rng.random() < 0.12:
+        steps.append({"op": "other", "action": "construct_incomplete"})
+        kinds.add(("same-class-over-incomplete-providers", "before-the-main-instance"))
     steps.append({"op": "construct", "val": gen.gen_valuation(rng, spec)})
     if spec["any_async"]:
         steps.append({"op": "activate"})
